@@ -129,7 +129,7 @@ func calleePkgName(cc *ssa.CallCommon) (pkg, name string) {
 			if p, ok := rt.(*types.Pointer); ok {
 				rt = p.Elem()
 			}
-			if n, ok := rt.(*types.Named); ok {
+			if n, ok := types.Unalias(rt).(*types.Named); ok {
 				return fnPkgPath(sc), n.Obj().Name() + "." + sc.Name()
 			}
 		}
@@ -288,7 +288,7 @@ func appObjectType(t types.Type) bool {
 	if p, ok := t.(*types.Pointer); ok {
 		t = p.Elem()
 	}
-	n, ok := t.(*types.Named)
+	n, ok := types.Unalias(t).(*types.Named)
 	if !ok || n.Obj().Pkg() == nil || !isRepoPkgPath(n.Obj().Pkg().Path()) {
 		return false
 	}
@@ -652,7 +652,7 @@ func d7Class(m *Model, g *Graph, cc *ssa.CallCommon) string {
 		if t := m.TableOfIface(cc.Value.Type()); t != nil {
 			return "ORM"
 		}
-		if n, ok := cc.Value.Type().(*types.Named); ok && n.Obj().Pkg() != nil && isRepoPkgPath(n.Obj().Pkg().Path()) {
+		if n, ok := types.Unalias(cc.Value.Type()).(*types.Named); ok && n.Obj().Pkg() != nil && isRepoPkgPath(n.Obj().Pkg().Path()) {
 			return "keeper-interface"
 		}
 		// iterator Value() etc. from api packages are static calls; other invokes: ignore
@@ -676,7 +676,7 @@ func d7Class(m *Model, g *Graph, cc *ssa.CallCommon) string {
 }
 
 func isErrorType(t types.Type) bool {
-	n, ok := t.(*types.Named)
+	n, ok := types.Unalias(t).(*types.Named)
 	return ok && n.Obj().Pkg() == nil && n.Obj().Name() == "error"
 }
 
